@@ -241,3 +241,111 @@ def driver_oracle(a, o):
              "caller's data unchanged", "caller's mask unchanged"]
     bad = [nm for nm, b in zip(names, o["bits"]) if not b]
     return ("driver: " + ", ".join(bad) + " violated") if bad else None
+
+
+# ======================================================================================= samplers.nonzeros / samplers.zeros called directly
+def direct_cases(rng, big):
+    """samplers.nonzeros / samplers.zeros with and WITHOUT replacement (the stratified samplers only ever use replacement): requests
+    below / at / above the number of nonzeros resp. zeros, over_sample_rate below / at / above 1.1"""
+    import tgen
+    cases = []
+    for rep in range(3 if big else 1):
+        for shp in [(2, 3), (3, 2, 2), (4,), (2, 2), (1, 3)]:
+            n = math.prod(shp)
+            allsubs = tgen.all_subs(shp)
+            for k in sorted({1, max(1, n // 2), n - 1}):          # at least one zero stays (no zeros at all: open finding C13-S1)
+                subs = rng.sample(allsubs, k)
+                vals = [rng.choice([1, 2, 3, 5]) for _ in subs]
+                base = {"shape": list(shp), "subs": subs, "vals": vals}
+                for wr in (False, True):
+                    for samples in sorted({0, 1, k - 1, k, k + 1, k + 3} - {-1}):
+                        cases.append(Case("direct", dict(base, kind="nonzeros", samples=samples, wr=wr, seed=rng.randrange(10 ** 6)), True))
+                    nz = n - k
+                    for samples in sorted({0, 1, nz - 1, nz, nz + 1, 2 * nz + 1} - {-1}):
+                        for rate in ((1.1,) if samples not in (1, nz) else (1.0, 1.1, 2.0)):
+                            cases.append(Case("direct", dict(base, kind="zeros", samples=samples, wr=wr, rate=rate, seed=rng.randrange(10 ** 6)), True))
+    return cases
+
+
+def run_direct(a):
+    import numpy as np
+    import pyttb as ttb
+    from pyttb.gcp import samplers
+    from props.c13_util import Capture, CeilCapture, _numerators, _ivals
+    from pyttb.pyttb_utils import tt_sub2ind
+    shp = tuple(a["shape"])
+    nd, nnz = len(shp), len(a["subs"])
+    S = ttb.sptensor(np.array(a["subs"], dtype=int).reshape((nnz, nd)), np.array(a["vals"], dtype=float).reshape((nnz, 1)), shp, copy=True)
+    np.random.seed(a["seed"])
+    with Capture(None) as cap, CeilCapture() as ceilcap:
+        try:
+            if a["kind"] == "nonzeros":
+                subs, vals = samplers.nonzeros(S, a["samples"], with_replacement=a["wr"])
+                nidx = [int(x) for x in cap.choice[0]] if cap.choice else list(range(nnz))
+                return {"subs": [[int(x) for x in r] for r in np.asarray(subs).reshape((-1, nd))], "vals": _ivals(np, vals),
+                        "vals_shape": [int(d) for d in np.shape(vals)], "nidx": nidx, "nchoice": len(cap.choice)}
+            nz_idx = np.sort(tt_sub2ind(shp, S.subs)) if nnz else np.array([], dtype=int)
+            rows = samplers.zeros(S, nz_idx, a["samples"], a["rate"], with_replacement=a["wr"])
+            draws = _numerators(cap.uniform[0]) if cap.uniform and cap.uniform[0].size else []
+            return {"rows": [[int(x) for x in r] for r in np.asarray(rows).reshape((-1, nd))], "draws": draws, "zceil": list(ceilcap.calls)}
+        except ValueError as ex:
+            msg = str(ex)
+            tag = ("RRate" if "Over sampling rate" in msg else "RCount" if "Cannot sample more than the total number of zeros" in msg else
+                   "RTooMany" if "Need too many zero samples" in msg else "NzReject" if "enough nonzeros" in msg else None)
+            return {"raised": tag, "msg": msg[:120], "zceil": list(ceilcap.calls)}
+
+
+def direct_check(a, o):
+    import tgen
+    from vcheck import gz, gzlist, gzmat, gnlist, gnat
+    if "exc" in o or ("raised" in o and o["raised"] is None):
+        return "false"
+    S = tgen.gsparse(a["shape"], a["subs"], a["vals"])
+    if a["kind"] == "nonzeros":
+        if "raised" in o:
+            return f"nzdirect_ok {S} {gnat(a['samples'])} {gbool(a['wr'])} true (@nil nat) (@nil (list Z)) (@nil Z)" if o["raised"] == "NzReject" else "false"
+        if not all(isinstance(v, int) for v in o["vals"]) or o["vals_shape"] != [a["samples"]]:
+            return "false"
+        return (f"nzdirect_ok {S} {gnat(a['samples'])} {gbool(a['wr'])} false {gnlist(o['nidx'])} {gzmat(o['subs'])} {gzlist(o['vals'])} && "
+                f"Nat.eqb {gnat(o['nchoice'])} (match nonzeros_mode (nnz {S}) {gnat(a['samples'])} {gbool(a['wr'])} with NzChoice => 1 | _ => 0 end)")
+    zc = "(@nil (Z * Z * Z))" if not o["zceil"] else "[" + "; ".join(f"({gz(n)}, {gz(d)}, {gz(r)})" for n, d, r in o["zceil"]) + "]"
+    rate_ok = gbool(a["rate"] >= 1.1)
+    if "raised" in o:
+        if o["raised"] == "NzReject":
+            return "false"
+        return f"zdirect_ok {S} {rate_ok} {gbool(a['wr'])} {gz(a['samples'])} {zc} (@nil (list Z)) (Some {o['raised']}) (@nil (list Z))"
+    return f"zdirect_ok {S} {rate_ok} {gbool(a['wr'])} {gz(a['samples'])} {zc} {gzmat(o['draws'])} None {gzmat(o['rows'])}"
+
+
+def direct_oracle(a, o):
+    """C13 on pyttb's own output: subscripts inside the tensor, values = the data there, zero samples are true zeros, no row twice
+    without replacement, never more rows than requested; a request that cannot be met without replacement is refused"""
+    if "exc" in o:
+        return f"harness error {o['exc']}: {o.get('msg')}"
+    stored = {tuple(s): v for s, v in zip(a["subs"], a["vals"])}
+    n = math.prod(a["shape"])
+    if "raised" in o:
+        if o["raised"] is None:
+            return f"unexpected ValueError: {o['msg']}"
+        if a["kind"] == "nonzeros" and not (not a["wr"] and a["samples"] > len(stored)):
+            return "an admissible nonzero request was refused"
+        if a["kind"] == "zeros" and a["wr"] and a["rate"] >= 1.1:
+            return "an admissible zero request (with replacement) was refused"
+        return None
+    if a["kind"] == "nonzeros":
+        if len(o["subs"]) != a["samples"] or len(o["vals"]) != a["samples"]:
+            return f"{len(o['subs'])} subscripts / {len(o['vals'])} values for {a['samples']} requested nonzero samples"
+        for s, v in zip(o["subs"], o["vals"]):
+            if stored.get(tuple(s)) != v:
+                return f"nonzero sample {s} -> {v} is not the stored value {stored.get(tuple(s))}"
+        if not a["wr"] and len({tuple(s) for s in o["subs"]}) != len(o["subs"]):
+            return "a nonzero was sampled twice without replacement"
+        return None
+    if len(o["rows"]) > a["samples"]:
+        return "more zero samples than requested"
+    for r in o["rows"]:
+        if not all(0 <= x < d for x, d in zip(r, a["shape"])) or tuple(r) in stored:
+            return f"zero sample {r} is outside the tensor or a nonzero of the data"
+    if not a["wr"] and len({tuple(r) for r in o["rows"]}) != len(o["rows"]):
+        return "a zero was sampled twice without replacement"
+    return None
